@@ -217,6 +217,8 @@ def gen_map_list(rng, depth, nulls):
     fields = rng.choice([["name"], ["name"], ["name", "port"], ["port"]])
     n = rng.choice([0, 1, 2, 2, 3])
     names = rng.sample(NAMES, n)
+    if fields == ["name", "port"] and n >= 2 and rng.random() < 0.5:
+        names[1] = names[0]          # same first key field, told apart by the second one only
     out = []
     for i, nm in enumerate(names):
         el = gen_good(rng, depth - 1, nulls, nkeys=rng.choice([0, 1, 2])) if depth > 0 else {}
@@ -581,6 +583,14 @@ def unit_exhaustive(quick):
     sets = [[], [1], [True], [1.0], [0], [False], [1, True], [1, 2], [2, 1], ["a"], [None], [[1]], [{"a": 1}], [1, 1]]
     for x, y in itertools.product(sets, repeat=2):
         yield {"t": {S: ["s"], "s": x}, "a": {"s": y}, "la": None}
+    # compare-as-map with two key fields: elements that agree on the first field only
+    two = {M: {"k": ["a", "b"]}, "k": [{"a": 1, "b": 1, "v": "x"}, {"a": 1, "b": 2, "v": "y"}]}
+    for av in ([{"a": 1, "b": 1, "v": "x"}, {"a": 1, "b": 2, "v": "y"}], [{"a": 1, "b": 2, "v": "y"}, {"a": 1, "b": 1, "v": "x"}],
+               [{"a": 1, "b": 2, "v": "y"}], [{"a": 1, "b": 1, "v": "x"}], [{"a": 1, "b": 1, "v": "y"}, {"a": 1, "b": 2, "v": "y"}],
+               [{"a": 1, "b": 2, "v": "x"}, {"a": 1, "b": 1, "v": "y"}], [{"a": 1, "v": "x"}, {"a": 1, "b": 2, "v": "y"}],
+               [{"a": "1", "b": " 1 ", "v": "x"}, {"a": 1, "b": 2, "v": "y"}], [{"a": "1$1", "v": "x"}, {"a": 1, "b": 2, "v": "y"}]):
+        yield {"t": two, "a": {"k": av}, "la": None}
+        yield {"t": two, "a": {"k": av}, "la": {"k": av}}
     # missing key / ownerReferences / nested last-applied shapes
     for la in LA_ALPHA:
         yield {"t": {"k": 1, OWNERS: [1]}, "a": {}, "la": la}
@@ -761,8 +771,10 @@ class Capture:
 
     def __enter__(self):
         def wrapper(target, actual, last_applied_value=None, compare_list_as_set=False):
-            self.seen.append({"t": copy.deepcopy(target), "a": copy.deepcopy(actual),
-                              "la": copy.deepcopy(last_applied_value)})
+            import drivers
+            # to_py: plain JSON even if a mutant hands celtypes objects to the comparator
+            self.seen.append({"t": drivers.to_py(copy.deepcopy(target)), "a": drivers.to_py(copy.deepcopy(actual)),
+                              "la": drivers.to_py(copy.deepcopy(last_applied_value))})
             return self.orig(target, actual, last_applied_value, compare_list_as_set)
         self.mod.validate_match = wrapper
         return self
